@@ -3,6 +3,7 @@ import GdcVerif.Model.JpegMarkers
 import GdcVerif.Model.JlsHeader
 import GdcVerif.Model.J2kHeader
 import GdcVerif.Model.J2kMct
+import GdcVerif.Model.J2kPacketBody
 /-! Driver ops of the C08/C09 parser models. -/
 namespace Drv.Parsers
 open Drv PC
@@ -16,6 +17,26 @@ def resStr : Res → String
   | .beyond => "beyond"
 
 def semi (s : String) : List String := if s = "-" then [] else s.splitOn ";"
+
+def pktIncl? (s : String) : Option PktBody.Incl :=
+  if s = "x" then some { included := false, len := 0 }
+  else s.toNat?.map fun n => { included := true, len := n }
+
+def pkt? (s : String) : Option PktBody.Pkt :=
+  match s.splitOn ":" with
+  | [h, ds] =>
+    match h.toNat? with
+    | some h =>
+      if ds = "e" then some { hdrLen := h, incls := none }
+      else ((ds.splitOn ",").mapM pktIncl?).map fun cs => { hdrLen := h, incls := some cs }
+    | none => none
+  | _ => none
+
+def pktResStr : PktBody.PktRes → String
+  | .empty => "e"
+  | .full r =>
+    ",".intercalate (r.incls.map fun c => if c.included then toString c.len else "x") ++ ":" ++ toString r.body ++ ":" ++
+      (if r.partialBuf then "1" else "0")
 
 def mctSeg? (s : String) : Option Mct.MctSeg :=
   match s.splitOn ":" with
@@ -36,6 +57,7 @@ def mccSeg? (s : String) : Option Mct.MccSeg :=
   | _ => none
 
 /-- ops:
+  `pkt-body total mode hdrLen:d,d,x;…` → `ok l,l,x:body:partial;… big=k` | `err`   (decodePacket → gatherCBData hand-over; big = MiB allocated for code-block buffers)
   `mct-apply comps mct;… mcc;… mco;…` → `ok v0,…` | `panic`   (decoder-side Part-2 transform of a zero image, one value per component)
   `jm-readmarker hex`      → `ok <marker> <unread>` | `err`
   `jm-readsegment hex`     → `ok <payload length> <unread>` | `err`
@@ -83,6 +105,14 @@ def step? : List String → Option String
           ++ " | " ++ sp c ++ " | " ++ sp q
       | _, _, _ => "bad-model"
     | (_, r) => resStr r
+  | ["pkt-body", total, mode, ps] =>
+    some <| match total.toNat?, mode.toNat?, (ps.splitOn ";").mapM pkt? with
+    | some total, some mode, some ps =>
+      let m : PktBody.Mode := if mode = 1 then .resilient else if mode = 2 then .strict else .default
+      match PktBody.decodeSeq total m 0 ps with
+      | none => "err"
+      | some rs => "ok " ++ ";".intercalate (rs.map pktResStr) ++ " big=" ++ toString ((PktBody.tileAllocs rs).foldl (· + ·) 0 / 1048576)
+    | _, _, _ => "bad-op"
   | ["mct-apply", comps, a, b, c] =>
     some <| match comps.toNat?, (semi a).mapM mctSeg?, (semi b).mapM mccSeg?, (semi c).mapM parseInts with
     | some comps, some mct, some mcc, some mco =>
